@@ -79,10 +79,12 @@ func kindOf(t types.Type) string {
 			return "int"
 		case u.Info()&types.IsString != 0:
 			return "string"
+		case u.Info()&types.IsBoolean != 0:
+			return "bool"
 		}
 	case *types.Slice:
 		if b, ok := u.Elem().Underlying().(*types.Basic); ok && b.Kind() == types.Byte {
-			return "string"
+			return "bytes"
 		}
 	}
 	if strings.HasSuffix(t.String(), "math.Int") || strings.HasSuffix(t.String(), "math.LegacyDec") || strings.HasSuffix(t.String(), "big.Int") {
